@@ -134,6 +134,48 @@ def binOK (v : Bytes) : Bool :=
   if v.length % 4 = 0 then b64PaddedOK v
   else v.all isB64 && v.length % 4 ≠ 1
 
+/-! ### `decodeGrpcMessage` (http_util.go), with Go's index checks made explicit
+
+Every `msg[i]` / `msg[i+1:i+3]` of the Go code is a bounds-checked read here (`none` = the Go code
+would panic with "index out of range"), so "the decoder never panics" is a theorem about this port
+(`GrpcProofs.C11.decodeGrpcMessage_never_panics`), and the correspondence run ties the port to the
+real function on every `grpc-message` value the scripted server sends. -/
+
+def hexVal (c : UInt8) : Option Nat :=
+  if 48 ≤ c && c ≤ 57 then some (c.toNat - 48)
+  else if 97 ≤ c && c ≤ 102 then some (c.toNat - 87)
+  else if 65 ≤ c && c ≤ 70 then some (c.toNat - 55)
+  else none
+
+/-- the loop of `decodeGrpcMessageUnchecked` from index `i` on (fuel ≥ remaining length) -/
+def decodeLoop (m : Bytes) : Nat → Nat → Bytes → Option Bytes
+  | 0, _, acc => some acc
+  | fuel + 1, i, acc =>
+    if i < m.length then
+      match m[i]? with
+      | none => none                                   -- msg[i]
+      | some c =>
+        if c = 37 && i + 2 < m.length then
+          match m[i + 1]?, m[i + 2]? with              -- msg[i+1:i+3]
+          | some x, some y =>
+            (match hexVal x, hexVal y with             -- strconv.ParseUint(…, 16, 8)
+             | some h, some l => decodeLoop m fuel (i + 3) (acc ++ [UInt8.ofNat (h * 16 + l)])
+             | _, _ => decodeLoop m fuel (i + 1) (acc ++ [c]))
+          | _, _ => none
+        else decodeLoop m fuel (i + 1) (acc ++ [c])
+    else some acc
+
+def decodeGrpcMessageUnchecked (m : Bytes) : Option Bytes := decodeLoop m (m.length + 1) 0 []
+
+/-- the scan of `decodeGrpcMessage`: is there a `%` with at least two bytes after it? -/
+def needsDecode (m : Bytes) : Bool :=
+  (List.range m.length).any fun i => m[i]? = some 37 && i + 2 < m.length
+
+/-- `decodeGrpcMessage`; `none` = panic -/
+def decodeGrpcMessage (m : Bytes) : Option Bytes :=
+  if m.isEmpty then some [] else
+  if needsDecode m then decodeGrpcMessageUnchecked m else some m
+
 def isReservedHeader (n : Bytes) : Bool :=
   (match n with | 58 :: _ => true | _ => false) || ccReservedHeaders.any (fun r => b r = n)
 
@@ -146,6 +188,7 @@ structure Scan where
   grpcStatus : Nat          -- grpcStatusCode (codes.Unknown unless a grpc-status header was seen)
   httpStatus : Bytes        -- last `:status` value ("" = missing)
   headerError : Bool
+  msg : Bytes := []         -- grpcMessage (decoded)
 deriving Repr, DecidableEq
 
 /-- The loop; `none` = a `grpc-status` value failed `strconv.ParseInt(v, 10, 32)` (the stream is closed
@@ -161,7 +204,7 @@ def scanFields : Scan → List (Bytes × Bytes) → Option Scan
       match parseIntBits 32 v with
       | none => none
       | some c => scanFields { sc with grpcStatus := toUInt32 c } rest
-    else if n = b "grpc-message" then scanFields sc rest
+    else if n = b "grpc-message" then scanFields { sc with msg := (decodeGrpcMessage v).getD [] } rest
     else if n = b ":status" then scanFields { sc with httpStatus := v } rest
     else if isReservedHeader n && !isWhitelistedHeader n then scanFields sc rest
     else if (b "-bin").isSuffixOf n && !binOK v then scanFields { sc with headerError := true } rest
@@ -202,6 +245,7 @@ structure Strm where
   inSnapshot : Bool           -- captured by Close's `streams := t.activeStreams`
   buffered : Nat              -- bytes in the recv buffer not yet read
   nread : Nat
+  smsg : Bytes := []          -- message of `s.status` when the RPC reads io.EOF (set by the closeStream winner)
 deriving Repr, DecidableEq, Inhabited
 
 /-- A blocked `NewStream` holds the `streamsQuotaAvailable` channel it last saw (`ch`), by generation. -/
@@ -386,6 +430,12 @@ def fcOnRead (pd pu n : Nat) : Nat × Nat :=
   let pu := pu + n
   if pu ≥ limit / 4 then (pd, 0) else (pd, pu)
 
+/-- the message of the status the next `closeStream(s, io.EOF, …, st, …)` records, if it wins (`str` = the
+stream record the handler read) -/
+def msgF (m : Bytes) (x : Strm) : Strm := if x.term.isSome then x else { x with smsg := m }
+
+def State.setMsg (s : State) (i : Nat) (_str : Strm) (m : Bytes) : State := s.updStream i (msgF m)
+
 /-- first HEADERS of a gRPC response: `CompareAndSwapUint32(&s.headerChanClosed, 0, 1)`, headerValid, close(headerChan) -/
 def hdrF (x : Strm) : Strm := if x.hdrClosed then x else { x with hdrClosed := true, headerValid := true }
 
@@ -425,7 +475,7 @@ def State.operateHeaders (s : State) (sid : Nat) (es trunc : Bool) (fields : Lis
           s.updStream i hdrF
         else
           -- trailers (or trailers-only): the RPC reads io.EOF and takes `status`
-          s.closeStream i none sc.grpcStatus (str.term.isNone && !str.wdone) h2No
+          (s.setMsg i str sc.msg).closeStream i none sc.grpcStatus (str.term.isNone && !str.wdone) h2No
 
 /-- `t.fc.onData(size)` (trInFlow) -/
 def State.connOnData (s : State) (size : Nat) : State :=
@@ -444,7 +494,7 @@ def State.handleData (s : State) (sid size dataLen : Nat) (padded es : Bool) : S
     let pd := if size > 0 then str.pd + size else str.pd
     let s := s.updStream i fun x => { x with pd := pd }
     if size > 0 && pd + str.pu > limit then
-      s.closeStream i none cInternal true h2FlowControl
+      (s.setMsg i str (b s!"received {pd + str.pu}-bytes data exceeding the limit {limit} bytes")).closeStream i none cInternal true h2FlowControl
     else match str.nonGRPC with
     | some (code, len) =>
       let n := min dataLen (nonGRPCDataMaxLen - len)
@@ -464,7 +514,7 @@ def State.handleData (s : State) (sid size dataLen : Nat) (padded es : Bool) : S
           -- s.write(recvMsg{buffer}): dropped by the recv buffer once an error was written
           if dataLen > 0 && str.term.isNone then s.updStream i fun x => { x with buffered := x.buffered + dataLen } else s
         else s
-      if es then s.closeStream i none cInternal (str.term.isNone && !str.wdone) h2No else s
+      if es then (s.setMsg i str (b "server closed the stream without sending trailers")).closeStream i none cInternal (str.term.isNone && !str.wdone) h2No else s
 
 /-- `handleRSTStream` -/
 def State.handleRST (s : State) (sid code : Nat) : State :=
